@@ -285,6 +285,10 @@ class StubsStringGenerator:
 
         # Superclasses
         already_defined_names: set[str] = added_class_attributes.union(added_class_methods)
+        # The inner classes of the class also hide members of the same name that superclasses define
+        already_defined_names = already_defined_names.union(
+            inner_class.name for inner_class in class_.classes if inner_class.is_public
+        )
         superclasses = class_.superclasses
         superclass_info = ""
         superclass_methods_text = ""
